@@ -32,7 +32,9 @@ ASSUMPTIONS = ['modification times come from a harness counter through os.utime 
 
 def sources(state):
     d = 'class D(object):\n    x = 1\n' + ('    extra = 2\n' if state['d_extra'] else '') + 'dname = 1\n' + ('dnew = 2\n' if state['d_new'] else '')
-    b = 'from d import *\nfrom f import *\nbname = 1\n' + ('bextra = D\n' if state['b_extra'] else '')
+    b = 'from d import *\nfrom f import *\nfrom k import *\nbname = 1\n' + ('bextra = D\n' if state['b_extra'] else '')
+    # k exists from the start but exports nothing until it is rewritten (f, in contrast, does not exist at first)
+    k = 'kname = 1\n' if state['k_full'] else '_kprivate = 0\n'
     c = 'from d import D\n\n\nclass C(D):\n    y = 1\n' + ('    z = 2\n' if state['c_extra'] else '')
     x = 'import y\nxv = 1\n' + ('xextra = 2\n' if state['x_extra'] else '')
     y = 'import x\nyv = 2\n' + ('yextra = 3\n' if state['y_extra'] else '')
@@ -40,7 +42,10 @@ def sources(state):
         c = c + 'def broken(:\n'            # a module that temporarily does not parse (the user is typing in another buffer)
     # g puts one more unchanged module between the requesting file and b / c: a -> g -> b -> d, a -> g -> c -> d
     g = 'from b import *\nfrom c import C as GC\ngname = 1\n'
-    out = {'d': d, 'b': b, 'c': c, 'x': x, 'y': y, 'g': g,
+    out = {'d': d, 'b': b, 'c': c, 'x': x, 'y': y, 'g': g, 'k': k,
+           # a nested package whose modules use relative imports of level 1 and of level 2 from one directory
+           'rel/sub/__init__': '', 'rel/sub/two': 'tvalue = 1\n', 'rel/sub/one': 'from . import two\n',
+           'rel/sub/impl': 'from ..helpers import hvalue as hv\nfrom ..helpers import *\n',
            'rel/__init__': 'relvalue = 0\n', 'rel/api': 'from . import helpers\n',
            'rel/helpers': 'hvalue = 1\n' + ('hextra = 2\n' if state['h_extra'] else '')}
     if state['e']:
@@ -74,7 +79,13 @@ A_SRC = ('from b import *\n'
          'rh.hvalue\n'
          'import g\n'
          'g.dn\n'
-         'g.GC().x\n')
+         'g.GC().x\n'
+         'kn\n'
+         'from rel.sub import one\n'
+         'one.two.tvalue\n'
+         'from rel.sub import impl\n'
+         'impl.hv.real\n'
+         'impl.hv\n')
 
 REQUESTS = {
     'assist-instance-attr': ('assist', (5, 4)),
@@ -93,18 +104,22 @@ REQUESTS = {
     'assist-deep-star-names': ('assist', (21, 4)),
     'assist-deep-inherited-attr': ('assist', (22, 7)),
     'location-deep-inherited-attr': ('location', (22, 8)),
+    'assist-empty-module-star-names': ('assist', (23, 2)),
+    'assist-nested-level1': ('assist', (25, 8)),
+    'assist-nested-level2': ('assist', (27, 8)),
+    'assist-nested-level2-star': ('assist', (28, 6)),
 }
-EDITS = ['w:d_extra', 'w:d_new', 'w:b_extra', 'w:c_extra', 'w:c_broken', 'w:h_extra', 'w:x_extra', 'w:y_extra', 'touch:d', 'touch:b', 'touch:c', 'create:e', 'create:f', 'create:pkg']
+EDITS = ['w:d_extra', 'w:d_new', 'w:b_extra', 'w:c_extra', 'w:c_broken', 'w:h_extra', 'w:k_full', 'w:x_extra', 'w:y_extra', 'touch:d', 'touch:b', 'touch:c', 'create:e', 'create:f', 'create:pkg']
 ALPHABET = EDITS + sorted(REQUESTS)
-QUICK_EDITS = ['w:d_extra', 'w:d_new', 'w:b_extra', 'w:y_extra', 'w:c_broken', 'w:h_extra', 'touch:d', 'touch:b', 'create:e', 'create:f', 'create:pkg']
+QUICK_EDITS = ['w:d_extra', 'w:d_new', 'w:b_extra', 'w:y_extra', 'w:c_broken', 'w:h_extra', 'w:k_full', 'touch:d', 'touch:b', 'create:e', 'create:f', 'create:pkg']
 QUICK_REQUESTS = ['assist-instance-attr', 'assist-star-class-attr', 'assist-names', 'assist-created-module', 'location-inherited-attr',
-                  'assist-created-package', 'assist-late-star-names', 'assist-through-cycle', 'assist-package-from-import', 'assist-relative-reexport', 'assist-deep-star-names', 'assist-deep-inherited-attr']
+                  'assist-created-package', 'assist-late-star-names', 'assist-through-cycle', 'assist-package-from-import', 'assist-relative-reexport', 'assist-deep-star-names', 'assist-deep-inherited-attr', 'assist-empty-module-star-names', 'assist-nested-level1', 'assist-nested-level2']
 
 
 class World(object):
     def __init__(self):
         self.root = tempfile.mkdtemp(prefix='c09_')
-        self.state = {'d_extra': False, 'd_new': False, 'b_extra': False, 'c_extra': False, 'x_extra': False, 'y_extra': False, 'c_broken': False, 'h_extra': False, 'e': False, 'f': False, 'pkg': False}
+        self.state = {'d_extra': False, 'd_new': False, 'b_extra': False, 'c_extra': False, 'x_extra': False, 'y_extra': False, 'c_broken': False, 'h_extra': False, 'k_full': False, 'e': False, 'f': False, 'pkg': False}
         self.clock = 1000000000
         self.written = {}
         self.loaded_once = False
